@@ -77,12 +77,25 @@ LonePairAt(j) ==
   LET k == Chosen[1 + (((j - 1) * 7919) % Len(Chosen))]
   IN  MItem("mnemonic.seed", "nfkd_reordering_pair_alone", [text |-> Mn12, pass |-> CpsToStr(<<PairA(k), PairB(k)>>)])
 
+\* RUNS: a starter followed by n copies of one character - combining marks of several classes, a precomposed letter, a
+\* compatibility character, a conjoining jamo, an ASCII letter - for every n up to 40 and around 64, 128, 256 (buffer
+\* and block sizes, the 30-mark limit of the stream-safe text format): normalisation has no length limit
+RunFill == <<769, 803, 820, 12441, 65438, 233, 4449, 97, 847>>
+RunLens == [i \in 1..40 |-> i] \o <<62, 63, 64, 65, 66, 126, 127, 128, 129, 130, 255, 256, 257, 600>>
+NRuns == Len(RunFill) * Len(RunLens)
+RunAt(j) ==
+  LET c == RunFill[1 + ((j - 1) % Len(RunFill))]
+      n == RunLens[1 + ((j - 1) \div Len(RunFill))]
+      pre == IF j % 2 = 0 THEN <<101>> ELSE <<233>>
+  IN  MItem("mnemonic.seed", "runs", [text |-> Mn12, pass |-> CpsToStr(pre \o [i \in 1..n |-> c])])
+
 Pool == <<228, 8491, 65313, 64257, 178, 54620, 119964, 128512, 97, 776, 32, 49, 241, 937>>
 NFixed == 5 * 2 * Len(Passes)
 NMix   == IF Thorough THEN 3000 ELSE 150
-Count  == NFixed + NMix + NSingles + NPairs + NLonePairs
+Count  == NFixed + NMix + NSingles + NPairs + NLonePairs + NRuns
 ItemAt(g) ==
-  IF g > NFixed + NMix + NSingles + NPairs THEN LonePairAt(g - NFixed - NMix - NSingles - NPairs)
+  IF g > NFixed + NMix + NSingles + NPairs + NLonePairs THEN RunAt(g - NFixed - NMix - NSingles - NPairs - NLonePairs)
+  ELSE IF g > NFixed + NMix + NSingles + NPairs THEN LonePairAt(g - NFixed - NMix - NSingles - NPairs)
   ELSE IF g > NFixed + NMix + NSingles THEN PairSweepAt(g - NFixed - NMix - NSingles)
   ELSE IF g > NFixed + NMix THEN SingleSweepAt(g - NFixed - NMix)
   ELSE IF g <= NFixed THEN
@@ -100,6 +113,7 @@ ItemAt(g) ==
         len == PrngNat(K("pwlen", <<j>>), 9)
         pw  == [i \in 1..len |-> Pool[1 + PrngNat(K("pwc", <<j, i>>), Len(Pool))]]
     IN  MItem("mnemonic.seed", "mix", [text |-> Phrase(idx), pass |-> CpsToStr(pw)])
+Histories == IF "VERIF_TIER" \in DOMAIN IOEnv /\ IOEnv.VERIF_TIER = "thorough" THEN 300 ELSE 40
 VARIABLE n
 INSTANCE GenBase
 =============================================================================
